@@ -644,7 +644,12 @@ impl Story {
             // the temporary context, but attempt to create them globally
             // var prioritiseHigherInCallStack = _temporaryEvaluationContainer
             // != null;
-            let assigned_val = assigned_val.into_any().downcast::<Value>().unwrap();
+            let assigned_val = assigned_val.into_any().downcast::<Value>().map_err(|_| {
+                StoryError::InvalidStoryState(format!(
+                    "Cannot assign a non-value (e.g. the result of a function that returns nothing) to variable '{}'.",
+                    var_ass.variable_name
+                ))
+            })?;
             self.get_state_mut()
                 .variables_state
                 .assign(var_ass, assigned_val)?;
